@@ -837,7 +837,11 @@ def near_log_edge(case, guard=1e-9):
             continue
         t = bins * (math.log(x) - math.log(lo)) / (math.log(hi) - math.log(lo))
         k = round(t)
-        if 1 <= k <= bins - 1 and abs(t - k) < guard and (hi / lo) ** k != (x / lo) ** bins:
+        # a log range that is narrow against the magnitude of log10(x): the distance to the edge must also be
+        # resolvable by doubles (a few ulp of log10(x), in units of the bin width in log space)
+        width = abs(math.log10(hi) - math.log10(lo)) / bins
+        res = 16 * 2.0 ** -52 * max(1.0, abs(math.log10(lo)), abs(math.log10(hi))) / width if width > 0 else 1.0
+        if 1 <= k <= bins - 1 and abs(t - k) < max(guard, res) and (hi / lo) ** k != (x / lo) ** bins:
             return True
     return False
 
